@@ -286,19 +286,25 @@ class Engine:
     # ---------------------------------------------------------------- solver
     def feasible(s, st, extra):
         t0 = time.time()
-        sol = z3.Solver(); sol.set('timeout', s.query_timeout_ms)
-        for c in st.pc: sol.add(c)
-        sol.add(extra)
-        r = sol.check(); s.queries += 1; s.solver_time += time.time() - t0
+        for attempt in (1, 6):          # an unknown answer is retried once with a six-fold time limit (a loaded machine must not turn a verdict into 'inconclusive')
+            sol = z3.Solver(); sol.set('timeout', s.query_timeout_ms * attempt)
+            for c in st.pc: sol.add(c)
+            sol.add(extra)
+            r = sol.check(); s.queries += 1
+            if r != z3.unknown: break
+        s.solver_time += time.time() - t0
         if r == z3.unknown: s.unknowns += 1; raise Unsupported('solver unknown (feasibility)')
         return r == z3.sat
     def model(s, st, extra=None):
         t0 = time.time()
-        sol = z3.SolverFor('QF_UFBV') if s.fast_logic else z3.Solver()
-        sol.set('timeout', s.query_timeout_ms)
-        for c in st.pc: sol.add(c)
-        if extra is not None: sol.add(extra)
-        r = sol.check(); s.queries += 1; s.solver_time += time.time() - t0
+        for attempt in (1, 6):
+            sol = z3.SolverFor('QF_UFBV') if s.fast_logic else z3.Solver()
+            sol.set('timeout', s.query_timeout_ms * attempt)
+            for c in st.pc: sol.add(c)
+            if extra is not None: sol.add(extra)
+            r = sol.check(); s.queries += 1
+            if r != z3.unknown: break
+        s.solver_time += time.time() - t0
         if r == z3.unknown: s.unknowns += 1; raise Unsupported('solver unknown (model)')
         if r != z3.sat: return None
         return sol.model()
